@@ -429,6 +429,21 @@ func run(r *Rng, tier string, n int) {
 			st["edited_wire_records_messages"]++
 		}
 	}
+	// records whose packed RDATA is EMPTY or minimal (TXT-like types with a nil / empty string list, NULL without
+	// data, OPT without options), many of them: one octet of disagreement per record adds up
+	for _, txt := range [][]string{nil, {}, {""}} {
+		mm := new(dns.Msg)
+		mm.Response = true
+		mm.SetQuestion("empty.example.org.", dns.TypeTXT)
+		for j := 0; j < 80; j++ {
+			mm.Answer = append(mm.Answer, &dns.TXT{Hdr: dns.RR_Header{Name: "empty.example.org.", Rrtype: dns.TypeTXT, Class: 1, Ttl: 60}, Txt: txt})
+			mm.Ns = append(mm.Ns, &dns.NULL{Hdr: dns.RR_Header{Name: "empty.example.org.", Rrtype: dns.TypeNULL, Class: 1, Ttl: 60}})
+		}
+		for _, sz := range []int{512, 700, 1232, 2000} {
+			checkTruncate(mm.Copy(), sz, false, false)
+		}
+		st["empty_rdata_messages"]++
+	}
 	// TSIG: untouched
 	m := new(dns.Msg)
 	m.SetQuestion("example.org.", dns.TypeA)
